@@ -5,7 +5,8 @@ from ..cfg import witness
 from ..core import AnalysisError, u, walk_local, enclosing_stmt
 from ..lib import (construct, std_facts, def_of, facts_imply, calls_of_node,
                    in_subtree, returns_of)
-from .c02 import eos, consuming_methods, CP
+from .c02 import eos, consuming_methods, CP, alternatives, indirect_callees
+from .common import instance_state
 
 KINDS = ['BindingStatement', 'BlockDeclaration', 'ImportStatement', 'IncludeStatement']
 
@@ -158,3 +159,81 @@ def run(ctx):
   ctx.check(okparts, 'C03.split', construct(sp), 'scope = everything before the last slash, selector = the rest', 'scope/selector parts changed', sp.loc(), instance='parts')
 
   eos(ctx, 'C03.eos')
+  normal_form(ctx)
+  instance_state(ctx, 'C03.queue', CP, {'_token_generator', '_filename', '_current_token', '_delegate', '_within_block', '_statements_queue'},
+                 'parser state beyond the token cursor, the block flag and the statement queue changes how a layout is read')
+
+
+def normal_form(ctx):
+  """AGREE: every value alternative that succeeds leaves the cursor in the
+  same normal form -- after any trailing comments / line breaks -- so that a
+  comment or a line break after a value (flat, in a block or inside a
+  bracket) is skipped whatever kind of value precedes it."""
+  prog = ctx.prog
+  cons, _ = consuming_methods(ctx)
+  c = ctx.cls(CP)
+  skip = CP + '._skip_whitespace_and_comments'
+  if skip not in cons:
+    raise AnalysisError('_skip_whitespace_and_comments no longer moves the cursor')
+  enders = {skip}
+
+  def callees_of(m, cc):
+    return indirect_callees(prog, m, cc)
+
+  def last_consumers(m):
+    """For each accepting exit of m: the consuming nodes that can be the last one before it."""
+    g = prog.cfg(m)
+    cids = {n.id: n for n in g.live_nodes() if any(q in cons for cc in calls_of_node(n) for q in callees_of(m, cc))}
+    out = []
+    exits = [g.nodes[a] for a, _ in g.pred[g.exit.id]]
+    for r in exits:
+      v = r.ast.value if r.kind == 'return' else None
+      if isinstance(v, ast.Tuple) and v.elts and isinstance(v.elts[0], ast.Constant) and v.elts[0].value is False:
+        continue   # a decline consumed nothing (C02.backtrack)
+      if r.id in cids:
+        out.append((r, [r]))
+        continue
+      lasts = []
+      seen = set()
+      stack = [a for a, _ in g.pred[r.id]]
+      while stack:
+        x = stack.pop()
+        if x in seen:
+          continue
+        seen.add(x)
+        if x in cids:
+          lasts.append(cids[x])
+          continue
+        stack.extend(a for a, _ in g.pred[x])
+      out.append((r, lasts))
+    return g, out
+
+  def ends_skipping(m, node):
+    calls = [cc for cc in calls_of_node(node) if any(q in cons for q in callees_of(m, cc))]
+    calls.sort(key=lambda cc: (cc.end_lineno, cc.end_col_offset))
+    return bool(calls) and all(q in enders for q in callees_of(m, calls[-1]))
+
+  changed = True
+  while changed:
+    changed = False
+    for name, m in c.methods.items():
+      if m.qual in enders or m.qual not in cons or m.is_generator():
+        continue
+      g, rl = last_consumers(m)
+      if rl and all(lasts and all(ends_skipping(m, n) for n in lasts) for _, lasts in rl):
+        enders.add(m.qual)
+        changed = True
+  pv, alts = alternatives(ctx)
+  for name in alts + ['parse_value']:
+    m = ctx.func('%s.%s' % (CP, name))
+    if m.qual in enders:
+      ctx.hold('C03.normal-form', construct(m), 'every successful path ends by skipping trailing comments / line breaks', m.loc(), instance='trailing-skip')
+      continue
+    g, rl = last_consumers(m)
+    bad = [(r, n) for r, lasts in rl for n in lasts if not ends_skipping(m, n)] or [(r, None) for r, lasts in rl if not lasts]
+    r, n = bad[0] if bad else (None, None)
+    ctx.fail('C03.normal-form', construct(m),
+             'a successful path ends with `%s` (line %s), which does not skip trailing comments / line breaks like its sibling alternatives: '
+             'a comment or line break after this kind of value (e.g. `@name()  # note`, or before `,` / `]` in a multi-line container) is a syntax error, '
+             'so two layouts of the same statements no longer give the same configuration' % (n.text() if n else 'no consuming call', n.lineno if n else '?'),
+             m.loc(n.ast) if n else m.loc(), instance='trailing-skip')
